@@ -14,6 +14,7 @@
                      3 NewRTUClientWithConfig(conf + packet.AsRTUErrorPacket / ParseRTUResponse, the
                        variants that do NOT check the CRC, which it must override)  4 NewRTUClient()
                serial 0..2 NewSerialClient(port, options in different orders / given twice)
+                      3 NewSerialClient with WithSerialReadTimeout(20ms), below the 30 ms settle sleep
                The value may carry 10 x (how the ClientHooks are implemented): 0 methods on a pointer,
                1 methods on a struct value, 2 methods on a named func type; ctor = value mod 10.
                The model does NOT depend on either.  Of the configuration the model depends on: which
@@ -249,7 +250,7 @@ Definition nlen (l : list N) : N := N.of_nat (length l).
 Definition reply_matches (sr : sreq) (want : val) : bool :=
   match want with
   | VL [VI 1%Z; VI u; VI fc; VI code] =>
-      (zN u =? sreq_unit sr) && (zN fc =? sreq_fc sr) && (1 <=? zN code) && (zN code <? 256)
+      (zN u =? sreq_unit sr) && (zN fc =? sreq_fc sr) && (zN code <? 256)    (* every exception code, 5 and 0 included *)
   | VL [VI 0%Z; pv] =>
       legal sr &&
       match unproj_resp pv, sr with
